@@ -43,3 +43,39 @@ Fixpoint dnf_code (alts : list (list lit)) (p body : nat) : list instr :=
 
 Fixpoint total_lits (alts : list (list lit)) : nat :=
   match alts with [] => 0 | ls :: r => length ls + total_lits r end.
+
+(* ------------------------------------------------------------------------------------------------
+   class of expressions of the compile-soundness theorem (Proofs/C03CompileSound.v) *)
+(* expressions covered: no conditional expression (their JUMP_FORWARDs are subject to jump threading) and no empty and/or
+   (which Python cannot express) *)
+Fixpoint simple (e : bexp) : bool :=
+  match e with
+  | Atom _ | Const _ => true
+  | Not e1 | IsNone _ e1 => simple e1
+  | And l | Or l => match l with [] => false | _ => (fix go (l : list bexp) : bool := match l with [] => true | x :: r => simple x && go r end) l end
+  | IfExp _ _ _ => false
+  | Cmp _ a b => simple a && simple b
+  end.
+
+
+(* ------------------------------------------------------------------------------------------------
+   the dual family: conjunctive normal form - an `and` of `or`s of literals (Proofs/C03RoundtripCnf.v) *)
+Definition mk_or (ls : list lit) : bexp := match ls with [x] => lit_bexp x | _ => Or (map lit_bexp ls) end.
+Definition mk_and_of (es : list bexp) : bexp := match es with [x] => x | _ => And es end.
+Definition cnf (cls : list (list lit)) : bexp := mk_and_of (map mk_or cls).
+
+(* stream of one clause: every literal but the last jumps to the next clause when true; the last jumps back when false *)
+Fixpoint or_fwd (ls : list lit) (nextcl : nat) : list instr :=
+  match ls with
+  | [] => []
+  | Lit neg n :: r => match r with
+                      | [] => [ILoad n; IBack neg]
+                      | _ :: _ => ILoad n :: IJump (negb neg) nextcl :: or_fwd r nextcl
+                      end
+  end.
+
+Fixpoint cnf_code (cls : list (list lit)) (p : nat) : list instr :=
+  match cls with
+  | [] => []
+  | ls :: r => or_fwd ls (p + 2 * length ls) ++ cnf_code r (p + 2 * length ls)
+  end.
